@@ -72,6 +72,12 @@ def run_variant(args):
                 o = (viol + und)[0]
                 return v["id"], "fail", "behaviour-preserving variant was reported: %s %s" % (o.verdict, o.text()[:200])
             return v["id"], "ok", ""
+        if exp == "MISSED":
+            # a confirmed breaking change the rules are known not to see (documented in DESIGN.md): the run must complete; if it
+            # is reported after all, the expectation file is out of date
+            if viol:
+                return v["id"], "fail", "documented miss is now reported (%s): update seeded/EXPECTED.json" % viol[0].rule
+            return v["id"], "ok", ""
         if exp == "UNDECIDED":
             if und and not viol:
                 return v["id"], "ok", ""
@@ -83,7 +89,7 @@ def run_variant(args):
         return v["id"], "fail", "breaking variant not reported by %s (violations: %s; undecided: %s)" % (
             rule, [o.rule for o in viol][:4], [o.rule for o in und][:4])
     except AnalysisError as e:
-        if v["expect"] in ("UNDECIDED", "NOT-VIOLATED"):
+        if v["expect"] in ("UNDECIDED", "NOT-VIOLATED", "MISSED"):
             return v["id"], "ok", ""
         return v["id"], "fail", "analysis error: %s" % e
     except Exception:
@@ -128,7 +134,7 @@ def _seeded_variants(prop, repo):
                 out.append(dict(prop=prop, id="seeded/" + sid, overrides=None, expect=exp))
                 continue
             ov = {rel: open(os.path.join(tmp, rel), encoding="utf8").read() for rel in files}
-            out.append(dict(prop=prop, id="seeded/" + sid, overrides=ov, expect=("UNDECIDED" if exp == "UNDECIDED" else prop + ".R")))
+            out.append(dict(prop=prop, id="seeded/" + sid, overrides=ov, expect=(exp if exp in ("UNDECIDED", "MISSED") else prop + ".R")))
         finally:
             shutil.rmtree(tmp, ignore_errors=True)
     return out
